@@ -329,6 +329,33 @@ L._verif_hook = hook
 from chameleon import PageTemplate
 print(PageTemplate('<p title="t">${1 + 1} crash</p>')())
 '''
+WARM_SCRIPT = r'''
+import sys
+from chameleon import PageTemplate
+for i in range(int(sys.argv[1])):
+    PageTemplate('<p title="t%d">${%d + 1} warm</p>' % (i, i))()
+'''
+RACE_SCRIPT = r'''
+import json, sys, threading
+from chameleon import PageTemplate
+bad = []
+for i in range(int(sys.argv[1])):
+    src = '<p title="t%d">${%d + 1} warm</p>' % (i, i)
+    want = '<p title="t%d">%d warm</p>' % (i, i + 1)
+    barrier = threading.Barrier(4)
+    def work():
+        barrier.wait()
+        try:
+            r = PageTemplate(src)()
+        except BaseException as e:
+            r = 'ERR %s: %s' % (type(e).__name__, str(e).split('\n')[0][:80])
+        if r != want:
+            bad.append({'template': src, 'got': r})
+    ts = [threading.Thread(target=work) for _ in range(4)]
+    [t.start() for t in ts]
+    [t.join() for t in ts]
+json.dump(bad, sys.stdout)
+'''
 AFTER_SCRIPT = r'''
 from chameleon import PageTemplate
 print(PageTemplate('<p title="t">${1 + 1} crash</p>')())
@@ -410,6 +437,23 @@ def oracle(ctx):
                 ctx.violation('two writers of one entry left a truncated or mixed module', {'schedule': s}, expected='absent or complete', actual=listing)
             if tmps[0] and tmps[0] == tmps[1]:
                 ctx.violation('two writers shared one temporary file name', {'schedule': s}, actual=tmps)
+        # (d) a warm cache (entries stored by an earlier process) and several threads of one process cooking the same templates at the same
+        # moment: every thread gets the complete module (what a server sees on its first requests after a restart)
+        wdir = os.path.join(root, 'warm')
+        os.mkdir(wdir)
+        env = dict(os.environ, CHAMELEON_CACHE=wdir)
+        k = 12 if ctx.tier == 'quick' else 60
+        subprocess.run(['/venv/bin/python', '-W', 'ignore', '-c', WARM_SCRIPT, str(k)], capture_output=True, text=True, env=env, timeout=300)
+        q = subprocess.run(['/venv/bin/python', '-W', 'ignore', '-c', RACE_SCRIPT, str(k)], capture_output=True, text=True, env=env, timeout=600)
+        ctx.count('evaluations', k)
+        nt += k
+        try:
+            bad = json.loads(q.stdout)
+        except Exception:
+            bad = [{'worker': 'failed', 'err': q.stderr[-300:]}]
+        if bad:
+            ctx.violation('threads that cook the same template at the same time over a warm cache directory must all render as without a cache',
+                          {'templates': k, 'threads': 4, 'cache': 'filled by an earlier process'}, expected='every thread renders <p>… n</p>', actual=bad[:5])
     finally:
         shutil.rmtree(root, ignore_errors=True)
     ctx.counters['nontrivial'] = nt
